@@ -1,6 +1,7 @@
 package hcv
 
 import (
+	"net/http"
 	"go/token"
 	"go/constant"
 	"fmt"
@@ -1134,4 +1135,469 @@ func (c *Ctx) sameStringValue(a, b ssa.Value) bool {
 		return best
 	}
 	return last(la) == last(lb)
+}
+
+// ruleResolvedValuePerName (C04.22): the value the Vary resolver yields for a nominated name is computed for that name: it
+// is not carried over from the name before (an absent field must be recorded as absent). In the resolver's tree the value
+// argument of a yield call is not a variable that lives outside the per-name body without being assigned on every path
+// in front of the yield (a captured cell of a range-over-func body, or a loop-carried phi).
+func ruleResolvedValuePerName(c *Ctx, rule string) {
+	if !c.Need(rule, "storeResp") {
+		return
+	}
+	desc := "the value yielded for a nominated name does not survive from the previous name"
+	sr := c.A.F("storeResp")
+	var roots []*ssa.Function
+	instrsOf(sr, func(in ssa.Instruction) {
+		call, ok := in.(*ssa.Call)
+		if !ok {
+			return
+		}
+		if _, isSig := call.Type().Underlying().(*types.Signature); !isSig {
+			return
+		}
+		_, args := recvAndArgs(&call.Call)
+		for _, a := range args {
+			if isHTTPHeader(a.Type()) {
+				roots = append(roots, c.P.RepoCallees(call)...)
+			}
+		}
+	})
+	seen := map[*ssa.Function]bool{}
+	var fns []*ssa.Function
+	var addAnon func(f *ssa.Function)
+	addAnon = func(f *ssa.Function) {
+		if seen[f] {
+			return
+		}
+		seen[f] = true
+		fns = append(fns, f)
+		for _, a := range f.AnonFuncs {
+			addAnon(a)
+		}
+	}
+	for _, r := range roots {
+		for _, f := range c.reachableFrom(r) {
+			if f.Pkg != nil && f.Pkg.Pkg.Path() == c.A.internalPath {
+				addAnon(f)
+			}
+		}
+	}
+	n := 0
+	for _, fn := range fns {
+		instrsOf(fn, func(in ssa.Instruction) {
+			call, ok := in.(*ssa.Call)
+			if !ok || call.Call.IsInvoke() || call.Call.StaticCallee() != nil || len(call.Call.Args) != 2 {
+				return
+			}
+			if !isStringType(call.Call.Args[0].Type()) || !isStringType(call.Call.Args[1].Type()) || !isBoolType(call.Type()) {
+				return
+			}
+			n++
+			where := c.P.ShortName(fn) + "@" + c.P.InstrPos(call)
+			bad := ""
+			seenV := map[ssa.Value]bool{}
+			var walk func(v ssa.Value)
+			walk = func(v ssa.Value) {
+				if seenV[v] {
+					return
+				}
+				seenV[v] = true
+				switch x := v.(type) {
+				case *ssa.Phi:
+					// loop-carried: the phi's block is reachable from one of its predecessors' successors (a back edge)
+					for i, e := range x.Edges {
+						pred := x.Block().Preds[i]
+						if x.Block().Dominates(pred) {
+							if _, isK := e.(*ssa.Const); !isK {
+								bad = "the value is carried round the loop at " + c.P.InstrPos(x)
+							}
+						}
+						walk(e)
+					}
+				case *ssa.UnOp:
+					if x.Op != token.MUL {
+						return
+					}
+					if fv, ok := x.X.(*ssa.FreeVar); ok {
+						dominated := false
+						for _, st := range c.P.cellStores(fv) {
+							if st.Parent() == x.Parent() && instrDominates(st, x) {
+								dominated = true
+							}
+						}
+						if !dominated {
+							bad = "the value is read from the captured variable " + fv.Name() + ", which is not assigned on every path of this body"
+						}
+					}
+				}
+			}
+			walk(call.Call.Args[1])
+			if bad != "" {
+				c.Fail(rule, "resolved-value-per-name fn="+c.P.ShortName(fn), desc, where+": "+bad+"; with `Vary: Accept-Language, X-Feature` a request `Accept-Language: en` is filed as {Accept-Language: en, X-Feature: en}, and a later request `Accept-Language: en, X-Feature: en` gets that response", where)
+			} else {
+				c.Pass(rule, "resolved-value-per-name fn="+c.P.ShortName(fn), desc, where)
+			}
+		})
+	}
+	if n == 0 {
+		c.Undecided(rule, "resolved-value-per-name", desc, "no yield of a name with its value in the Vary resolver's tree")
+	}
+}
+
+// ruleHopSetKeysCanonical (C08.23 / C05.19): the set of hop-by-hop field names is looked up with the keys of header maps,
+// which are canonical (the 304 merge tests `set[name]` for every field of the 304). Every name that goes into the set
+// is canonical: a constant in canonical form, or a name produced through http.CanonicalHeaderKey /
+// textproto.CanonicalMIMEHeaderKey - for a name that the body of a range-over-func loop receives, the sequence that is
+// ranged over canonicalises. `Connection: x-session-hint` must keep `X-Session-Hint` out of the freshened response.
+func ruleHopSetKeysCanonical(c *Ctx, rule string) {
+	if !c.Need(rule, "hopTable") {
+		return
+	}
+	desc := "every name put into the hop-by-hop set is in canonical form"
+	ht := c.A.F("hopTable")
+	canonCall := func(cc *ssa.CallCommon) bool {
+		return callIsPkgFunc(cc, "net/http", "CanonicalHeaderKey") || callIsPkgFunc(cc, "net/textproto", "CanonicalMIMEHeaderKey")
+	}
+	treeCanonicalises := func(f *ssa.Function) bool {
+		hit := false
+		for g := range c.P.StaticTree(f) {
+			var all []*ssa.Function
+			var addAll func(h *ssa.Function)
+			addAll = func(h *ssa.Function) {
+				all = append(all, h)
+				for _, a := range h.AnonFuncs {
+					addAll(a)
+				}
+			}
+			addAll(g)
+			for _, h := range all {
+				instrsOf(h, func(in ssa.Instruction) {
+					if cc := callOf(in); cc != nil && canonCall(cc) {
+						hit = true
+					}
+				})
+			}
+		}
+		return hit
+	}
+	// sequences ranged over in the table function: static repo calls whose result is a function that takes a function
+	seqsCanonical := true
+	nseq := 0
+	instrsOf(ht, func(in ssa.Instruction) {
+		call, ok := in.(*ssa.Call)
+		if !ok {
+			return
+		}
+		sig, ok := call.Type().Underlying().(*types.Signature)
+		if !ok || sig.Params().Len() != 1 {
+			return
+		}
+		if _, ok := sig.Params().At(0).Type().Underlying().(*types.Signature); !ok {
+			return
+		}
+		f := call.Call.StaticCallee()
+		if f == nil || !c.P.IsRepoFunc(f) {
+			seqsCanonical = false
+			return
+		}
+		nseq++
+		if !treeCanonicalises(f) {
+			seqsCanonical = false
+		}
+	})
+	n := 0
+	fns := append([]*ssa.Function{ht}, ht.AnonFuncs...)
+	for _, fn := range fns {
+		instrsOf(fn, func(in ssa.Instruction) {
+			mu, ok := in.(*ssa.MapUpdate)
+			if !ok || !isStringType(mu.Key.Type()) {
+				return
+			}
+			if s, ok := constStr(mu.Key); ok {
+				if s != http.CanonicalHeaderKey(s) {
+					n++
+					c.Fail(rule, "hop-set-keys-canonical", desc, c.P.ShortName(fn)+"@"+c.P.InstrPos(mu)+": the constant "+s+" is not in canonical form")
+				}
+				return
+			}
+			n++
+			where := c.P.ShortName(fn) + "@" + c.P.InstrPos(mu)
+			ok2 := false
+			c.P.TraceBack(mu.Key, TraceOpts{NoParams: true, NoHeapFields: true}, func(x ssa.Value, _ []int) bool {
+				switch y := x.(type) {
+				case *ssa.Call:
+					if canonCall(&y.Call) {
+						ok2 = true
+						return false
+					}
+				case *ssa.Parameter:
+					if y.Parent() != ht && y.Parent().Parent() == ht && nseq > 0 && seqsCanonical {
+						ok2 = true
+					}
+				}
+				return true
+			})
+			if ok2 {
+				c.Pass(rule, "hop-set-keys-canonical", desc, where)
+			} else {
+				c.Fail(rule, "hop-set-keys-canonical", desc, where+": the name goes into the set as it is spelled in the Connection field; a 304 with `Connection: x-session-hint` and `X-Session-Hint: abc` is merged with that field (the merge looks up `X-Session-Hint`), and later hits replay a hop-by-hop field", where)
+			}
+		})
+	}
+	if n == 0 {
+		c.Pass(rule, "hop-set-keys-canonical (constants only)", desc, c.P.ShortName(ht)+": no computed member")
+	}
+}
+
+// ruleUnsignedParseClampedBeforeConversion (C12.23): a number decoded with strconv.ParseUint is brought into range while
+// it is still unsigned: a conversion of the parsed value to a signed type is preceded, on every path, by a comparison of
+// that value with a bound (or by a min/max on the unsigned value). Converted first, 2^63 and everything above (and the
+// out-of-range result, the greatest uint64) turn negative, and the clamp that follows keeps them negative: `max-age=
+// 9223372036854775808` acts as "no usable max-age" instead of "at least 2^31 seconds".
+func ruleUnsignedParseClampedBeforeConversion(c *Ctx, rule string) {
+	desc := "a delta-seconds value parsed as unsigned is bounded before it is converted to a signed type"
+	n := 0
+	for _, fn := range c.P.RepoFuncs {
+		if fn.Pkg == nil || fn.Pkg.Pkg.Path() != c.A.internalPath || isTestOnly(c, fn) {
+			continue
+		}
+		instrsOf(fn, func(in ssa.Instruction) {
+			cv, ok := in.(*ssa.Convert)
+			if !ok {
+				return
+			}
+			from, ok1 := cv.X.Type().Underlying().(*types.Basic)
+			to, ok2 := cv.Type().Underlying().(*types.Basic)
+			if !ok1 || !ok2 || from.Info()&types.IsUnsigned == 0 || to.Info()&types.IsInteger == 0 || to.Info()&types.IsUnsigned != 0 {
+				return
+			}
+			parsed := false
+			bounded := false
+			c.P.TraceBack(cv.X, TraceOpts{NoParams: true, NoHeapFields: true}, func(x ssa.Value, _ []int) bool {
+				switch y := x.(type) {
+				case *ssa.Extract:
+					if call, ok := y.Tuple.(*ssa.Call); ok && callIsPkgFunc(&call.Call, "strconv", "ParseUint") {
+						parsed = true
+						return false
+					}
+				case *ssa.Call:
+					if b, ok := y.Call.Value.(*ssa.Builtin); ok && (b.Name() == "min" || b.Name() == "max") {
+						bounded = true // bounded in the unsigned domain
+						return false
+					}
+				}
+				return true
+			})
+			if !parsed {
+				return
+			}
+			n++
+			where := c.P.ShortName(fn) + "@" + c.P.InstrPos(cv)
+			if !bounded {
+				for _, dc := range dominatingConds(cv.Block()) {
+					for _, lf := range condLeaves(dc.cond, dc.onTrue) {
+						if bo, ok := lf.v.(*ssa.BinOp); ok {
+							switch bo.Op {
+							case token.LSS, token.LEQ, token.GTR, token.GEQ:
+								if c.An.sameCanon(bo.X, cv.X) || c.An.sameCanon(bo.Y, cv.X) {
+									bounded = true
+								}
+							}
+						}
+					}
+				}
+			}
+			if bounded {
+				c.Pass(rule, "unsigned-parse-bounded fn="+c.P.ShortName(fn), desc, where)
+			} else {
+				c.Fail(rule, "unsigned-parse-bounded fn="+c.P.ShortName(fn), desc, where+": the result of ParseUint is converted before it is bounded; `max-age=9223372036854775808` (2^63), `18446744073709551615` and every longer digit string become negative durations: max-age unusable, max-stale grants nothing, stale-if-error and stale-while-revalidate windows empty - instead of a value of at least 2^31 seconds", where)
+			}
+		})
+	}
+	if n == 0 {
+		c.Pass(rule, "unsigned-parse-bounded (no unsigned parse)", desc, "no result of strconv.ParseUint is converted to a signed type in the internal package")
+	}
+}
+
+// ruleNoSharedConnections (C17.15 / C14.28): every open of the file-system backend yields a connection built from that
+// open's own parameters (directory, application name, key): the package keeps no package-level container (map, sync.Map,
+// slice, channel) from which an earlier connection could be handed out. A connection shared by directory drops the later
+// DSN's encryption settings: a wrong key gets a HIT, and `encrypt=on` after a plain open writes plaintext.
+func ruleNoSharedConnections(c *Ctx, rule string) {
+	fp := c.P.Pkg("store/fscache")
+	if fp == nil {
+		return
+	}
+	desc := "the file-system backend keeps no package-level container of connections"
+	isContainer := func(t types.Type) bool {
+		switch u := t.Underlying().(type) {
+		case *types.Map, *types.Slice, *types.Chan:
+			return true
+		case *types.Struct:
+			_ = u
+			return typeIs(t, "sync", "Map") || typeIs(t, "sync", "Pool")
+		case *types.Pointer:
+			return typeIs(u.Elem(), "sync", "Map")
+		}
+		return false
+	}
+	var bad []string
+	n := 0
+	for _, m := range fp.Members {
+		g, ok := m.(*ssa.Global)
+		if !ok {
+			continue
+		}
+		n++
+		if !isContainer(derefType(g.Type())) {
+			continue
+		}
+		// used by a function of the backend (other than the package initialiser's own assignment)?
+		used := false
+		for _, fn := range c.fsBackendFuncs() {
+			if fn.Name() == "init" && fn.Parent() == nil {
+				continue
+			}
+			instrsOf(fn, func(in ssa.Instruction) {
+				for _, op := range in.Operands(nil) {
+					if *op == ssa.Value(g) {
+						used = true
+					}
+				}
+			})
+		}
+		if used {
+			bad = append(bad, g.Name()+" ("+derefType(g.Type()).String()+")")
+		}
+	}
+	sort.Strings(bad)
+	if len(bad) > 0 {
+		c.Fail(rule, "no-shared-connections", desc, "package-level "+strings.Join(bad, ", ")+" is used by the backend's functions; a second open of the same directory with another key (or with encryption switched on) gets the first connection: a wrong key yields data, and values are written in plaintext although the DSN says encrypt=on", bad...)
+		return
+	}
+	c.Pass(rule, "no-shared-connections", desc, fmt.Sprintf("%d package-level variable(s) of store/fscache examined", n))
+}
+
+// ruleDroppedResponseIsClosed (C20.13): a function that obtains a response from the origin and cannot return it (it has no
+// response result: the background revalidation) either hands the response on or closes its body on every way out that
+// follows a successful origin call. A response that is dropped with its body open keeps its connection, and with an
+// upstream that does not end the exchange when the context does, the connection's goroutines outlive the background
+// request for good.
+func ruleDroppedResponseIsClosed(c *Ctx, rule string) {
+	desc := "a function that cannot return the origin's response hands it on or closes its body on every way out"
+	n := 0
+	var fns []*ssa.Function
+	for fn := range c.A.Reach {
+		fns = append(fns, fn)
+	}
+	sort.Slice(fns, func(i, j int) bool { return FuncName(fns[i]) < FuncName(fns[j]) })
+	for _, fn := range fns {
+		if isTestOnly(c, fn) || c.An.AdapterTargets(fn) != nil {
+			continue
+		}
+		returnsResp := false
+		for _, t := range sigResults(fn) {
+			if isHTTPResponsePtr(t) {
+				returnsResp = true
+			}
+		}
+		if returnsResp {
+			continue
+		}
+		instrsOf(fn, func(in ssa.Instruction) {
+			call, ok := in.(*ssa.Call)
+			if !ok || !(c.An.IsUpstreamSite(in) || c.mayUpstreamCall(in)) {
+				return
+			}
+			var resp ssa.Value
+			if isHTTPResponsePtr(call.Type()) {
+				resp = call
+			}
+			for _, r := range *call.Referrers() {
+				if ex, ok := r.(*ssa.Extract); ok && isHTTPResponsePtr(ex.Type()) {
+					resp = ex
+				}
+			}
+			if resp == nil {
+				return
+			}
+			n++
+			pr := c.An.Prune(fn, AssumeKeys(map[string]bool{"nil:err": true}))
+			// blocks that consume the response
+			consumes := map[*ssa.BasicBlock]bool{}
+			instrsOf(fn, func(i2 ssa.Instruction) {
+				cc := callOf(i2)
+				if cc == nil || i2 == ssa.Instruction(call) {
+					return
+				}
+				if cc.IsInvoke() && cc.Method.Name() == "Close" {
+					if u, ok := cc.Value.(*ssa.UnOp); ok {
+						if fa, ok := u.X.(*ssa.FieldAddr); ok && c.An.sameCanon(fa.X, resp) {
+							consumes[i2.Block()] = true
+						}
+					}
+					return
+				}
+				_, args := recvAndArgs(cc)
+				for _, a := range args {
+					if c.An.sameCanon(a, resp) && len(c.P.RepoCallees(i2.(ssa.CallInstruction))) > 0 {
+						consumes[i2.Block()] = true
+					}
+				}
+			})
+			where := c.P.ShortName(fn) + "@" + c.P.InstrPos(call)
+			var leaks []string
+			seen := map[*ssa.BasicBlock]bool{}
+			var walk func(b *ssa.BasicBlock)
+			walk = func(b *ssa.BasicBlock) {
+				if seen[b] || !pr.LiveBlock[b.Index] {
+					return
+				}
+				seen[b] = true
+				if consumes[b] && b != call.Block() {
+					return
+				}
+				if len(b.Instrs) > 0 {
+					if r, ok := b.Instrs[len(b.Instrs)-1].(*ssa.Return); ok {
+						leaks = append(leaks, c.P.InstrPos(r))
+					}
+				}
+				// a response without a body has nothing to close: behind `resp.Body != nil` only the non-nil side counts
+				if len(b.Instrs) > 0 {
+					if iff, ok := b.Instrs[len(b.Instrs)-1].(*ssa.If); ok {
+						if bo, ok := iff.Cond.(*ssa.BinOp); ok && (bo.Op == token.NEQ || bo.Op == token.EQL) {
+							for _, side := range [][2]ssa.Value{{bo.X, bo.Y}, {bo.Y, bo.X}} {
+								u, isLoad := side[0].(*ssa.UnOp)
+								if !isLoad || !isNilConst(side[1]) {
+									continue
+								}
+								if fa, ok := u.X.(*ssa.FieldAddr); ok && c.An.sameCanon(fa.X, resp) && fieldName(fa.X.Type(), fa.Field) == "Body" {
+									if bo.Op == token.NEQ {
+										walk(b.Succs[0])
+									} else {
+										walk(b.Succs[1])
+									}
+									return
+								}
+							}
+						}
+					}
+				}
+				for _, s := range b.Succs {
+					walk(s)
+				}
+			}
+			walk(call.Block())
+			sort.Strings(leaks)
+			if len(leaks) > 0 {
+				c.Fail(rule, "dropped-response-closed fn="+c.P.ShortName(fn), desc, where+": the function can return at "+strings.Join(uniqStrings(leaks), ", ")+" after a successful origin call without handing the response on or closing its body; an origin that answers after the stale-while-revalidate timeout (through an upstream that does not watch the context) leaves the connection and its two goroutines behind for every such revalidation", where)
+			} else {
+				c.Pass(rule, "dropped-response-closed fn="+c.P.ShortName(fn), desc, where)
+			}
+		})
+	}
+	if n == 0 {
+		c.Undecided(rule, "dropped-response-closed", desc, "no function without a response result calls the origin")
+	}
 }
